@@ -434,9 +434,11 @@ class PhysicalUnit(object):
 
                 if all([x % rounded == 0 for x in self._powers]):
                     f = self._factor**power
-                    p = [x / rounded for x in self._powers]
+                    # divisibility was just checked, so integer division is exact and keeps the
+                    # powers integral (a name like 'm**2.0' would not be a valid unit string)
+                    p = [x // rounded for x in self._powers]
                     if all([x % rounded == 0 for x in self._names.values()]):
-                        names = self._names / rounded
+                        names = NumberDict((k, v // rounded) for k, v in self._names.items())
                     else:
                         names = NumberDict()
                         if f != 1.:
